@@ -25,9 +25,11 @@ pub enum ElemTy {
     Boxed,
     /// a 96-byte element without drop glue
     Fat,
+    /// an element whose comparison itself calls the library (re-entrancy on the same thread)
+    Reent,
 }
 
-pub const ALL_ELEMS: [ElemTy; 14] = [
+pub const ALL_ELEMS: [ElemTy; 15] = [
     ElemTy::I8,
     ElemTy::I32,
     ElemTy::I64,
@@ -42,6 +44,7 @@ pub const ALL_ELEMS: [ElemTy; 14] = [
     ElemTy::OptN64,
     ElemTy::Boxed,
     ElemTy::Fat,
+    ElemTy::Reent,
 ];
 
 impl ElemTy {
@@ -61,6 +64,7 @@ impl ElemTy {
             ElemTy::OptN64 => "Option<N64>",
             ElemTy::Boxed => "Boxed(Box<i64>)",
             ElemTy::Fat => "Fat(96 bytes)",
+            ElemTy::Reent => "Reent(cmp calls the library)",
         }
     }
     pub fn from_name(s: &str) -> Option<ElemTy> {
@@ -81,14 +85,14 @@ impl ElemTy {
             ElemTy::U8 | ElemTy::OptU8 => (0, u8::MAX as i128),
             ElemTy::U64 => (0, u64::MAX as i128),
             ElemTy::Keyed => (-1000, 1000),
-            ElemTy::Boxed | ElemTy::Fat => (-(1i128 << 40), 1i128 << 40),
+            ElemTy::Boxed | ElemTy::Fat | ElemTy::Reent => (-(1i128 << 40), 1i128 << 40),
             _ => (-(1i128 << 53), 1i128 << 53),
         }
     }
     /// largest difference of two values the element type's own subtraction can represent
     pub fn spread_max(self) -> i128 {
         match self {
-            ElemTy::Boxed | ElemTy::Fat => i64::MAX as i128,
+            ElemTy::Boxed | ElemTy::Fat | ElemTy::Reent => i64::MAX as i128,
             ElemTy::Keyed => i32::MAX as i128,
             _ => self.int_range().1,
         }
